@@ -92,6 +92,14 @@ def scenarios(tier):
         out.append(dict(kind="resume", lengths={"b": 2} if rep_max < 1001 else {}, rep_max=rep_max,
                         fmt="res", delete=False, keep=["true", 0], variant="same", budget=[1, 0, 0],
                         torn="coarse", calls="all" if tier == "thorough" else "near500"))
+    # the interrupted runner OBJECT itself is asked to simulate again (Ctrl-C in a notebook, run the cell
+    # again), below and beyond the periodic save
+    out.append(dict(kind="resume", lengths={"b": 2}, rep_max=2, fmt="res", delete=False, keep=["true", 0],
+                    variant="same", budget=[2, 0, 1] if thorough else [1, 0, 1], torn="coarse", calls="all",
+                    keep_runner_after_crash=True))
+    out.append(dict(kind="resume", lengths={"b": 2}, rep_max=501, fmt="res", delete=False, keep=["true", 0],
+                    variant="same", budget=[1, 0, 0], torn="coarse", calls="all" if thorough else "near500",
+                    keep_runner_after_crash=True))
     # restart with other parameters
     for variant in ("rep_max+1", "fixed_changed", "unpacked_value_changed", "unpacked_longer",
                     "unpacked_array_other_shape", "param_removed", "param_added", "fixed_type_changed"):
@@ -102,6 +110,10 @@ def scenarios(tier):
                     variant="fixed_float_close_changed", budget=[1, 0, 1], torn="coarse", calls="all"))
     out.append(dict(kind="foreign", lengths={"d": 2}, rep_max=2, fmt="res", delete=False, keep=["true", 0],
                     variant="unpacked_float_close_changed", budget=[1, 0, 1], torn="coarse", calls="all"))
+    # restart with a list / tuple parameter that differs only in LENGTH (common part identical)
+    for variant in ("fixed_list_extended", "fixed_tuple_shortened"):
+        out.append(dict(kind="foreign", lengths={"b": 2}, rep_max=2, fmt="res", delete=False, keep=["true", 0],
+                        variant=variant, budget=[1, 0, 1], torn="coarse", calls="all"))
     # restart with the SAME parameters, given to the restarted runner in another insertion order
     # (what a restart in a fresh process with another string-hash seed can produce on its own)
     for no_unpack in (False, True):
@@ -121,6 +133,10 @@ def grid_for(sc, run_no):
         pd["ant"] = (2, 2)
         pd["npint"] = np.int64(3)
         pd["nested"] = [[1, 2], [3]]
+    if sc["variant"] == "fixed_list_extended":
+        pd["pilots"] = [0, 4, 8] if run_no == 0 else [0, 4, 8, 12]
+    if sc["variant"] == "fixed_tuple_shortened":
+        pd["pilots"] = (0, 4, 8) if run_no == 0 else (0, 4)
     if sc["variant"] == "fixed_float_close_changed":
         pd["nv"] = 1e-9 if run_no == 0 else 3e-9          # |difference| < 1e-8: "close" for np.allclose
     if run_no >= 1:
@@ -344,7 +360,7 @@ def execute(sc, ctx, chk):
                 S.in_run_call = 0
                 S.calls_this_run = []
                 mode = plan[step]
-                if not (mode == "all_same_runner" and runner is not None):
+                if not ((mode == "all_same_runner" or sc.get("keep_runner_after_crash")) and runner is not None):
                     runner, pd, unpacked, rep_max = make_runner(sc, S, run_no)
                 vars_ = RM.variations(RM._plain(pd) if run_no == 0 or sc["variant"] != "unpacked_array_other_shape"
                                       else {"b": [0, 1]}, unpacked)
@@ -363,7 +379,8 @@ def execute(sc, ctx, chk):
                     status = "completed"
                 except crashfs.Crash:
                     status = "crashed"
-                    runner = None
+                    if not sc.get("keep_runner_after_crash"):
+                        runner = None
                 except BaseException as e:  # noqa
                     status = ("raised", e)
                 if status == "completed" and step < len(plan) - 1:
@@ -484,7 +501,8 @@ def judge_foreign(sc, S, chk, case, status, dur, before_img, runner, idxs, nvar,
         return ("foreign", v, "resumed")
     changed = []
     for i in have:
-        if v in ("fixed_changed", "param_removed", "param_added", "fixed_type_changed", "fixed_float_close_changed"):
+        if v in ("fixed_changed", "param_removed", "param_added", "fixed_type_changed", "fixed_float_close_changed",
+                 "fixed_list_extended", "fixed_tuple_shortened"):
             changed.append(i)
         elif v in ("unpacked_value_changed", "unpacked_float_close_changed") and i == 1:
             changed.append(i)
